@@ -18,9 +18,20 @@ def judge(ctx, cases, outs, name, timeout=1800):
     d = os.path.join(ctx.work, name)
     byid = {c["id"]: c for c in cases}
     recs = []
+    fan = {}        # case id -> list (per distinct outcome) of configuration indexes sharing it
     for o in outs:
         c = byid[o["id"]]
-        oo = [{"k": x["k"], "rows": x.get("rows", [])} for x in o["outs"]]
+        oo, groups, seen = [], [], {}
+        for i, x in enumerate(o["outs"]):
+            y = {"k": x["k"], "rows": x.get("rows", [])}
+            key = json.dumps(y, sort_keys=True)
+            if key in seen:
+                groups[seen[key]].append(i)
+            else:
+                seen[key] = len(oo)
+                oo.append(y)
+                groups.append([i])
+        fan[o["id"]] = groups
         recs.append(sqlgen.trace_record(c, oo))
     tr = f"{d}/trace.ndjson"
     prints = []
@@ -56,6 +67,7 @@ def judge(ctx, cases, outs, name, timeout=1800):
         if k != "REJECT":
             continue
         o = outmap[r["id"]]
-        rej.append({"case": byid[r["id"]], "cfg": r["out"] - 1, "out": o["outs"][r["out"] - 1], "devs": r["devs"],
-                    "want": r["want"], "meta": o["meta"][r["out"] - 1]})
+        for ci in fan[r["id"]][r["out"] - 1]:
+            rej.append({"case": byid[r["id"]], "cfg": ci, "out": o["outs"][ci], "devs": r["devs"],
+                        "want": r["want"], "meta": o["meta"][ci]})
     return rej
